@@ -323,7 +323,27 @@ func (e *Eng) verifyFunc(fn *ssa.Function, sp *FuncSpec, known *knownFindings) *
 	}
 	// axioms
 	for _, ax := range e.specs.Axioms {
+		// an axiom belongs to the package that states it: it is assumed for that package's functions and for
+		// functions of packages that import it (their contracts may use its spec functions)
+		apkg := e.typesPkg(e.specs.AxiomPkg[ax])
+		if apkg != nil && fn.Pkg != nil && apkg != fn.Pkg.Pkg {
+			imported := false
+			for _, ip := range fn.Pkg.Pkg.Imports() {
+				if ip == apkg {
+					imported = true
+				}
+			}
+			if !imported {
+				continue
+			}
+		}
+		if strings.Contains(ax.Text, "[]byte") && !e.sorts.keyMode {
+			continue // an axiom about abstract keys says nothing in concrete-bytes mode
+		}
 		acx := fr.newCtx(st, nil, false)
+		if apkg != nil {
+			acx.pkg = apkg
+		}
 		if f, err := acx.boolExpr(ax.Expr); err == nil {
 			r.assumeGlobal(f)
 			r.assumed["axiom:"+labelOr(ax, 0)] = true
